@@ -186,6 +186,28 @@ WFv(v, U) ==
                   /\ \A t \in 1..Len(v.rows[r]) : \E c \in 1..Len(v.cols) : v.cols[c].name = v.rows[r][t][1]
       [] OTHER -> FALSE
 
+\* all sub-values of a (read) value, itself included
+RECURSIVE Parts(_)
+PartsOfTags(tags) == UNION {Parts(tags[i][2]) : i \in 1..Len(tags)}
+Parts(v) ==
+    {v} \cup
+    CASE v.k = "list" -> UNION {Parts(v.items[i]) : i \in 1..Len(v.items)}
+      [] v.k = "dict" -> PartsOfTags(v.tags)
+      [] v.k = "grid" -> PartsOfTags(v.meta) \cup UNION {PartsOfTags(v.cols[i].meta) : i \in 1..Len(v.cols)}
+                         \cup UNION {PartsOfTags(v.rows[i]) : i \in 1..Len(v.rows)}
+      [] OTHER -> {}
+
+\* all unit texts occurring in a value (or read value)
+RECURSIVE UnitsIn(_)
+UnitsInTags(tags) == UNION {UnitsIn(tags[i][2]) : i \in 1..Len(tags)}
+UnitsIn(v) ==
+    CASE v.k = "num" -> {v.unit[i] : i \in 1..Len(v.unit)}
+      [] v.k = "list" -> UNION {UnitsIn(v.items[i]) : i \in 1..Len(v.items)}
+      [] v.k = "dict" -> UnitsInTags(v.tags)
+      [] v.k = "grid" -> UnitsInTags(v.meta) \cup UNION {UnitsInTags(v.cols[i].meta) : i \in 1..Len(v.cols)}
+                         \cup UNION {UnitsInTags(v.rows[i]) : i \in 1..Len(v.rows)}
+      [] OTHER -> {}
+
 ----------------------------------------------------------------------------
 \* constructors used by the model-checking instances
 Null == [k |-> "null"]
